@@ -45,6 +45,17 @@ Theorem C19_logger_chunks : forall (limit : nat) (appends : list (list byte)),
 Proof. exact logger_chunks. Qed.
 Print Assumptions C19_logger_chunks.
 
+(* the chunks are maximal: every chunk but the last has exactly Limit-1 bytes (a message of exactly Limit-1
+   bytes is not flushed before endlog; an empty message gives exactly one empty chunk) *)
+Theorem C19_logger_chunks_maximal : forall (limit : nat) (appends : list (list byte)),
+  (2 <= limit)%nat -> Forall nonul appends ->
+  exists ev cs last,
+    run_logger limit (appends_ops appends) = (EvBegin :: ev ++ [EvFinalize true], Ok tt) /\
+    chunks_of ev = cs ++ [last] /\ full limit cs /\ (length last <= limit - 1)%nat /\
+    concat (chunks_of ev) = concat appends.
+Proof. exact logger_chunks_maximal. Qed.
+Print Assumptions C19_logger_chunks_maximal.
+
 (* non-vacuity: "a}}{{b{1:05x}|{}|{2:c}|{9}|{:q}|{0:3" with (int -5, unsigned long 255, char 'A')
    gives "a}}{b000ff|255|A|{9}|{:q}|{0:3" *)
 Definition ex_fmt : list byte :=
